@@ -166,10 +166,24 @@ impl<'tcx> Dump<'tcx> {
         J::A(v)
     }
 
-    fn ty_const(&mut self, c: ty::Const<'tcx>, _env: TypingEnv<'tcx>) -> J {
+    fn ty_const(&mut self, c: ty::Const<'tcx>, env: TypingEnv<'tcx>) -> J {
         if let Some(leaf) = c.try_to_leaf() {
             let sz = leaf.size();
             return J::U(leaf.to_bits(sz));
+        }
+        if let ty::ConstKind::Param(p) = c.kind() {
+            return js(p.name.to_string());
+        }
+        // unevaluated (e.g. a named constant used as a capacity): normalise, then look again
+        let tcx = self.tcx;
+        let n = std::panic::catch_unwind(std::panic::AssertUnwindSafe(|| {
+            tcx.try_normalize_erasing_regions(env, rustc_middle::ty::Unnormalized::new_wip(c))
+        }));
+        if let Ok(Ok(c2)) = n {
+            if let Some(leaf) = c2.try_to_leaf() {
+                let sz = leaf.size();
+                return J::U(leaf.to_bits(sz));
+            }
         }
         js(format!("{:?}", c))
     }
